@@ -293,6 +293,172 @@ def check_program(p, cfg, root):
     return viol, n
 
 
+# --- JVM programs: compile steps whose libraries are needed at compile time (rule.libs, -cp) ---------------------
+# The stub toolchain knows C-family command lines only, so these programs are built with the real javac/jar of the
+# image.  Oracles: (5) per product, the real (normal / implicit) and the order-only prerequisites of the Makefile
+# and of build.ninja are the same sets; (6) after modifying each source, make and ninja re-make the same products
+# (observed through the products' timestamps).
+
+JVM_FILES = {
+    'A.java': 'public class A { public static final int V = 1; }\n',
+    'B.java': 'public class B { public static int v() { return 2; } }\n',
+    'Main.java': 'public class Main { public static void main(String[] a) { System.out.println("m"); } }\n',
+}
+
+
+def jvm_programs():
+    out = []
+    for two in (False, True):
+        chains = ([], ['a']) if two else ([],)
+        for chain in chains:
+            subsets = (['a'], ['b'], ['a', 'b'], ['b', 'a']) if two else (['a'],)
+            for use in subsets:
+                for consumer in ('executable', 'library', 'object_file'):
+                    lines = ["project('j')", "a = library('a', files=['A.java'])"]
+                    if two:
+                        lines.append("b = library('b', files=['B.java']%s)"
+                                     % (', libs=[a]' if chain else ''))
+                    libs = '[%s]' % ', '.join(use)
+                    if consumer == 'executable':
+                        lines.append("c = executable('prog', files=['Main.java'], libs=%s, entry_point='Main')" % libs)
+                    elif consumer == 'library':
+                        lines.append("c = library('top', files=['Main.java'], libs=%s)" % libs)
+                    else:
+                        lines.append("c = object_file(file='Main.java', libs=%s)\ndefault(c)" % libs)
+                    files = {k: v for k, v in JVM_FILES.items() if two or k != 'B.java'}
+                    out.append(('\n'.join(lines) + '\n', files))
+    return out
+
+
+def make_edges(pr):
+    p = subprocess.run(['make', '-pRrq'], cwd=pr.bld, env=pr.env, stdout=subprocess.PIPE,
+                       stderr=subprocess.DEVNULL, text=True, errors='replace')
+    lines = p.stdout.split('\n')
+    if '# Files' not in lines:
+        return None
+    out = {}
+    notarget = False
+    for l in lines[lines.index('# Files') + 1:]:
+        if l.startswith('# Not a target'):
+            notarget = True
+            continue
+        if l.startswith('# files hash-table stats') or l.startswith('# VPATH'):
+            break
+        m = re.match(r'^([^#\t\s][^:=]*):(?!=)(.*)$', l)
+        if m:
+            if not notarget and ':=' not in l:
+                normal, _, order = m.group(2).partition('|')
+                for t in m.group(1).split():
+                    e = out.setdefault(os.path.normpath(t), (set(), set()))
+                    e[0].update(os.path.normpath(x) for x in normal.split())
+                    e[1].update(os.path.normpath(x) for x in order.split())
+            notarget = False
+    return out
+
+
+def ninja_edges(pr):
+    p = subprocess.run([bfg.REFNINJA, '-t', 'refdump'], cwd=pr.bld, env=pr.env, stdout=subprocess.PIPE,
+                       text=True)
+    out = {}
+    for e in json.loads(p.stdout)['edges']:
+        if e['rule'] in ('phony', 'regenerate') or e['generator']:
+            continue
+        for o in e['outputs'] + e['implicit_outputs']:
+            out[os.path.normpath(o)] = ({os.path.normpath(x) for x in e['inputs'] + e['implicit']},
+                                        {os.path.normpath(x) for x in e['order_only']})
+    return out
+
+
+def _mtimes(bld, names):
+    out = {}
+    for n in names:
+        try:
+            out[n] = os.stat(os.path.join(bld, n)).st_mtime_ns
+        except OSError:
+            out[n] = None
+    return out
+
+
+def check_jvm(script, files, root, behavioural):
+    viol = []
+    n = 0
+    prs = {}
+    for backend in ('make', 'ninja'):
+        pr = proj.Proj(os.path.join(root, backend), backend, files, script)
+        if backend == 'ninja':
+            shutil.rmtree(pr.src)
+            os.symlink(prs['make'].src, pr.src)
+            pr.src = prs['make'].src
+        r = pr.configure()
+        n += 1
+        if r.rc != 0:
+            raise core.HarnessError('JVM program does not configure for %s: %s' % (backend, r.err[-300:]))
+        prs[backend] = pr
+    mk, nj = prs['make'], prs['ninja']
+    me, ne = make_edges(mk), ninja_edges(nj)
+    if me is None:
+        raise core.HarnessError('could not read the Make database')
+    products = sorted(o for o in ne if not o.startswith('dist') and o not in ('clean', 'PHONY'))
+    if not products or not any(o.endswith('.classlist') for o in products):
+        raise core.HarnessError('JVM program has no compile step')
+
+    def strip(s):
+        # helper nodes of the Make backend: directory stamps and the regeneration stamp
+        return {x for x in s if not x.endswith('/.dir') and x != '.dir' and x != 'Makefile.stamp'}
+    for o in products:
+        if o not in me:
+            viol.append(('jvm-targets', 'build.ninja makes %r, the Makefile has no such target' % o))
+            continue
+        mreal, morder = strip(me[o][0]), strip(me[o][1])
+        nreal, norder = ne[o]
+        if mreal != nreal:
+            viol.append(('jvm-prerequisites', 'product %r: real prerequisites %r in the Makefile, %r in build.ninja'
+                         % (o, sorted(mreal), sorted(nreal))))
+        if morder != norder:
+            viol.append(('jvm-order-only', 'product %r: order-only prerequisites %r in the Makefile, %r in '
+                         'build.ninja' % (o, sorted(morder), sorted(norder))))
+    if not behavioural or viol:
+        return viol, n
+    for b, pr in prs.items():
+        rc, out, _ = pr.run(['all'])
+        n += 1
+        if rc != 0:
+            raise core.HarnessError('JVM build fails under %s: %s' % (b, out[-300:]))
+    snaps = {b: os.path.join(root, 'snap-' + b) for b in prs}
+    for b in prs:
+        proj.snapshot(prs[b].bld, snaps[b])
+    srcsnap = os.path.join(root, 'snap-src')
+    proj.snapshot(mk.src, srcsnap)
+    for f in sorted(files):
+        remade = {}
+        proj.restore(srcsnap, mk.src)
+        for b in prs:
+            proj.restore(snaps[b], prs[b].bld)
+        before = {b: _mtimes(prs[b].bld, products) for b in prs}
+        proj.modify(os.path.join(mk.src, f))
+        for b, pr in prs.items():
+            rc, out, _ = pr.run(['all'])
+            n += 1
+            after = _mtimes(pr.bld, products)
+            remade[b] = 'FAILED' if rc != 0 else {o for o in products if after[o] != before[b][o]}
+        if remade['make'] != remade['ninja']:
+            viol.append(('jvm-rebuild-sets', 'after modifying %s make re-made %r, ninja re-made %r'
+                         % (f, sorted(remade['make']) if isinstance(remade['make'], set) else remade['make'],
+                            sorted(remade['ninja']) if isinstance(remade['ninja'], set) else remade['ninja'])))
+    return viol, n
+
+
+def _jvm_shard(arg):
+    i, behavioural = arg
+    script, files = jvm_programs()[i]
+    root = os.path.join(core.worker_dir(), 'c06j')
+    shutil.rmtree(root, ignore_errors=True)
+    try:
+        return i, check_jvm(script, files, root, behavioural)
+    finally:
+        shutil.rmtree(root, ignore_errors=True)
+
+
 def logs_cwd(recs, s):
     for r in recs:
         if r['argv'] == s['argv']:
@@ -338,6 +504,21 @@ def run(ctx):
         ctx.violation('C06:%s:%s:cfg=%s' % (law, ' | '.join(progs[i].lines), json.dumps(cfgs[ci])),
                       'program [%s], configuration %r: %s: %s' % (' | '.join(progs[i].lines), cfgs[ci], law, detail),
                       case=dict(k=k, index=i, config=cfgs[ci], script=progs[i].script()), observed=detail)
+    # JVM programs (compile-time libraries)
+    jprogs = jvm_programs()
+    jbeh = set(range(len(jprogs))) if ctx.thorough else {0, len(jprogs) - 2}
+    jn = 0
+    jseen = set()
+    for i, (v, nb) in core.pmap(_jvm_shard, [(i, i in jbeh) for i in range(len(jprogs))]):
+        jn += nb
+        for law, detail in v:
+            if law in jseen:
+                continue
+            jseen.add(law)
+            ctx.violation('C06:%s:%s' % (law, ' | '.join(jprogs[i][0].split('\n')[1:-1])),
+                          'JVM program [%s]: %s: %s' % (' | '.join(jprogs[i][0].split('\n')[1:-1]), law, detail),
+                          case=dict(jvm=i, script=jprogs[i][0]), observed=detail)
+    n += jn
     if n < 500:
         raise core.HarnessError('vacuous C06 exploration')
     ctx.level = 'exploration'
@@ -347,7 +528,12 @@ def run(ctx):
              'with a space x global options x CFLAGS/CPPFLAGS/LDFLAGS/LDLIBS), both backends from one script: target '
              'sets (make -p database vs manifest), per-step program/arguments/cwd/environment, re-executed steps '
              'after modifying each source, compile_commands.json entries vs the processes actually started. '
-             'distinct = (program, configuration) pairs' % (len(progs), k, len(cfgs)),
+             'distinct = (program, configuration) pairs. Plus %d JVM programs (1-2 library jars, optionally chained, '
+             'consumed by an executable / library / object_file through libs= in every order) built with the real '
+             'javac and jar: per product the real and the order-only prerequisites of Makefile and build.ninja are '
+             'the same sets, and (%d of them here, all in the thorough tier) the products re-made after modifying '
+             'each source are the same under make and ninja; %d configure/build runs'
+             % (len(progs), k, len(cfgs), len(jprogs), len(jbeh), jn),
         samples=[dict(script=progs[len(progs) // 2].script(), config=cfgs[-1])],
         exhaustive=True, programs=len(progs), configurations=len(cfgs), configure_and_build_runs=n,
         states=len(progs) * len(cfgs), transitions=n, traces_validated_against_impl=n)
@@ -358,6 +544,12 @@ def run(ctx):
 
 def replay(rec):
     c = rec['case']
+    if 'jvm' in c:
+        script, files = jvm_programs()[c['jvm']]
+        v, n = check_jvm(script, files, os.path.join(core.worker_dir(), 'c06jr'), True)
+        for x in v:
+            print(x)
+        return not v
     progs = projgen.programs(c['k'], ALPHABET)
     v, n = check_program(progs[c['index']], c['config'], os.path.join(core.worker_dir(), 'c06r'))
     for x in v:
